@@ -7,6 +7,7 @@ Conformance of the encodings to FULL LZMA/XZ decoders (`xz_conformance`) is not 
 covered by the tie only (xz tool, Wuffs std/lzma + std/xz on every generated payload).
 -/
 import WuffsVerif.Proof.LzmaAppend
+import WuffsVerif.Proof.LzmaHeaders
 import WuffsVerif.Proof.LzmaBound2
 import WuffsVerif.Proof.LzmaFuel
 
@@ -268,5 +269,29 @@ theorem xz_chunk_loop_fuel_irrelevant (f1 f2 : Nat) (dst : Array UInt8) (src : L
 example (rest : List UInt8) (bits : Nat) : WOK ⟨rest, bits, 0xFFFFFFFF⟩ ∧ ProbOK probHalf :=
   ⟨⟨by show (16777216 : Nat) ≤ 4294967295; omega, by show (4294967295 : Nat) < 4294967296; omega⟩,
     probHalf_ok⟩
+
+/-! ## conformance facts about the fixed header bytes
+
+`xz_conformance` as a whole (acceptance by FULL decoders) is covered by the tie only; what CAN be stated over the
+model alone is that the hard-coded header bytes are what the formats prescribe for this configuration. -/
+
+/-- the 24 fixed bytes of every XZ encoding: stream-header magic, stream flags `00 01` (CRC-32 check) followed by
+    their CRC-32; block header of (2 + 1) * 4 bytes naming one LZMA2 filter with a 4 KiB dictionary, followed
+    by its CRC-32 (both CRCs evaluated by the kernel with the model's `crc32`) -/
+theorem xz_header_conformance :
+    (xzHeader24.take 6 = [0xFD, 0x37, 0x7A, 0x58, 0x5A, 0x00] ∧
+     (xzHeader24.drop 6).take 2 = [0x00, 0x01] ∧
+     (xzHeader24.drop 8).take 4 = le32 (crc32 ((xzHeader24.drop 6).take 2))) ∧
+    ((xzHeader24.drop 12).take 8 = [0x02, 0x00, 0x21, 0x01, 0x00, 0x00, 0x00, 0x00] ∧
+     ((xzHeader24.drop 12).headD 0).toNat = (12 / 4) - 1 ∧
+     (xzHeader24.drop 20).take 4 = le32 (crc32 ((xzHeader24.drop 12).take 8))) :=
+  ⟨xzHeader_stream_crc, xzHeader_block_crc⟩
+
+/-- the LZMA properties byte `0x5D` (also the `S` byte of every LZMA2 chunk) is `(pb·5 + lp)·9 + lc`, the
+    dictionary size is 0x1000 little endian, and `lc + lp ≤ 4` as LZMA2 requires -/
+theorem lzma_header_conformance :
+    lzmaHeader5.headD 0 = ((pb * 5 + lp) * 9 + lc).toUInt8 ∧ (pb * 5 + lp) * 9 + lc = 0x5D ∧
+    lzmaHeader5.drop 1 = [0x00, 0x10, 0x00, 0x00] ∧ lc ≤ 8 ∧ lp ≤ 4 ∧ pb ≤ 4 ∧ lc + lp ≤ 4 :=
+  lzma_props_byte
 
 end WuffsVerif.Props.C17
